@@ -35,6 +35,15 @@ CHECKS = {
              'compared with its earlier result. Bounded-progress restatement of "always terminates"; no wall-clock verdicts.',
         note='Work done in C (json, ElementTree, int parsing) is not counted; memory bound is RLIMIT_AS 3 GiB; zero-width list element types '
              'form their own class with a larger per-octet budget (DESIGN C08).'),
+    'C18': dict(
+        category='exploration', design_ref='DESIGN.md 4 C18',
+        technique='runtime monitoring: per-operation comparison with a fresh-specification oracle over recorded sequential and multi-threaded histories with sys.monitoring yield injection',
+        text='Histories of mixed succeeding/failing encode/decode calls on one shared Specification, sequentially and from 2-8 threads with thread '
+             'switches forced inside asn1tools code by a LINE-event callback; every outcome is compared with the outcome of the same call made '
+             'alone on a freshly compiled Specification, and input objects are compared with deep copies taken before the call. The number of '
+             'switches observed inside asn1tools and distinct interleaving signatures are reported.',
+        note='Operations are pure functions of their arguments, so per-operation equality is the linearizability condition; CPython GIL '
+             'scheduling limits which interleavings are reachable.'),
 }
 
 NOT_YET = 'check under construction in this revision (DESIGN.md section 4); not claimed yet'
